@@ -8,45 +8,61 @@
 import PyGqlModel.Props.C06_inv
 import PyGqlModel.Props.C06_typed
 import PyGqlModel.Props.C06_skip
+import PyGqlModel.Props.C06_input
+import PyGqlModel.Props.C06_ctx
+import PyGqlModel.Props.C06_spreads
 namespace PyGql.Props.C06
 open PyGql PyGql.Validate PyGql.Validate.Spec
 
 def ProvedTyped : List Rule :=
-  [.fieldsOnCorrectType, .scalarLeafs, .knownArgumentNames, .providedRequiredArguments, .fragmentsOnCompositeTypes]
-def ProvedAll : List Rule := Proved ++ ProvedTyped
+  [.fieldsOnCorrectType, .scalarLeafs, .knownArgumentNames, .providedRequiredArguments, .fragmentsOnCompositeTypes,
+   .uniqueInputFieldNames, .knownDirectives]
+/-- rules whose specification predicate depends on the ORDER of definitions when fragment names are not unique
+    (the last definition of a name wins) -/
+def ProvedOrder : List Rule := [.possibleFragmentSpreads]
+def ProvedPermDefs : List Rule := Proved ++ ProvedTyped
+def ProvedAll : List Rule := ProvedPermDefs ++ ProvedOrder
 
-def SpecAll (r : Rule) (s : SchemaD) (d : Doc) : Prop :=
+def SpecAll (r : Rule) (s : SchemaD) (fx : Fixes) (d : Doc) : Prop :=
   match r with
   | .fieldsOnCorrectType => Spec.fieldsOnCorrectType s d
   | .scalarLeafs => Spec.scalarLeafs s d
   | .knownArgumentNames => Spec.knownArgumentNames s d
   | .providedRequiredArguments => Spec.providedRequiredArguments s d
   | .fragmentsOnCompositeTypes => Spec.fragmentsOnCompositeTypes s d
+  | .uniqueInputFieldNames => Spec.uniqueInputFieldNames d
+  | .knownDirectives => Spec.knownDirectives s d
+  | .possibleFragmentSpreads => Spec.possibleFragmentSpreads s fx d
   | r => SpecOf r s d
 
 theorem rule_iff_all (s : SchemaD) (fx : Fixes) (d : Doc) (r : Rule) (hr : r ∈ ProvedAll) :
-    Silent s fx r d ↔ SpecAll r s d := by
-  simp only [ProvedAll, List.mem_append] at hr
-  rcases hr with hr | hr
+    Silent s fx r d ↔ SpecAll r s fx d := by
+  simp only [ProvedAll, ProvedPermDefs, List.mem_append] at hr
+  rcases hr with (hr | hr) | hr
   · have := rule_iff s fx d r hr
     simp only [Proved, List.mem_cons, List.not_mem_nil, or_false] at hr
     rcases hr with rfl | rfl | rfl | rfl | rfl | rfl | rfl | rfl | rfl | rfl <;> exact this
   · simp only [ProvedTyped, List.mem_cons, List.not_mem_nil, or_false] at hr
-    rcases hr with rfl | rfl | rfl | rfl | rfl
+    rcases hr with rfl | rfl | rfl | rfl | rfl | rfl | rfl
     · exact rule_fields_on_correct_type_iff s fx d
     · exact rule_scalar_leafs_iff s fx d
     · exact rule_known_argument_names_iff s fx d
     · exact rule_provided_required_arguments_iff s fx d
     · exact rule_fragments_on_composite_types_iff s fx d
+    · exact rule_unique_input_field_names_iff s fx d
+    · exact rule_known_directives_iff s fx d
+  · simp only [ProvedOrder, List.mem_cons, List.not_mem_nil, or_false] at hr
+    subst hr
+    exact rule_possible_fragment_spreads_iff s fx d
 
-/-- **verdict_iff** for the conjunction of the 15 rules proved -/
+/-- **verdict_iff** for the conjunction of the 18 rules proved -/
 theorem verdict_iff_all_partial (s : SchemaD) (fx : Fixes) (d : Doc) :
-    (∀ r ∈ ProvedAll, Silent s fx r d) ↔ (∀ r ∈ ProvedAll, SpecAll r s d) :=
+    (∀ r ∈ ProvedAll, Silent s fx r d) ↔ (∀ r ∈ ProvedAll, SpecAll r s fx d) :=
   forall_congr' fun r => forall_congr' fun hr => rule_iff_all s fx d r hr
 
-/-- **attribution** over the 15 rules proved (on the rules run alone; see `attribution_partial`) -/
+/-- **attribution** over the 18 rules proved (on the rules run alone; see `attribution_partial`) -/
 theorem attribution_all_partial (s : SchemaD) (fx : Fixes) (d : Doc) (r : Rule) (hr : r ∈ ProvedAll)
-    (hbad : ¬ SpecAll r s d) (hothers : ∀ r' ∈ ProvedAll, r' ≠ r → SpecAll r' s d) :
+    (hbad : ¬ SpecAll r s fx d) (hothers : ∀ r' ∈ ProvedAll, r' ≠ r → SpecAll r' s fx d) :
     0 < E (alone s fx r d) ∧ ∀ r' ∈ ProvedAll, r' ≠ r → E (alone s fx r' d) = 0 := by
   refine ⟨Nat.pos_of_ne_zero fun h0 => hbad ((rule_iff_all s fx d r hr).mp h0), fun r' hr' hne => ?_⟩
   exact (rule_iff_all s fx d r' hr').mpr (hothers r' hr' hne)
@@ -54,11 +70,13 @@ theorem attribution_all_partial (s : SchemaD) (fx : Fixes) (d : Doc) (r : Rule) 
 theorem typedNodes_perm (s : SchemaD) {d d' : Doc} (h : d.defs.Perm d'.defs) (p : Node × View) :
     p ∈ typedNodes s d ↔ p ∈ typedNodes s d' := (h.flatMap_right _).mem_iff
 
-/-- **perm_definitions** for all 15 rules proved -/
+/-- **perm_definitions** for 17 of the 18 rules proved (`PossibleFragmentSpreads` reads the type condition of the LAST
+    definition of a fragment name, so with duplicate fragment names its predicate depends on the order) -/
 theorem perm_definitions_all_partial (s : SchemaD) (fx : Fixes) {d d' : Doc} (h : d.defs.Perm d'.defs) (r : Rule)
-    (hr : r ∈ ProvedAll) : Silent s fx r d ↔ Silent s fx r d' := by
-  rw [rule_iff_all s fx d r hr, rule_iff_all s fx d' r hr]
-  simp only [ProvedAll, List.mem_append] at hr
+    (hr : r ∈ ProvedPermDefs) : Silent s fx r d ↔ Silent s fx r d' := by
+  have hr' : r ∈ ProvedAll := by simp only [ProvedAll, List.mem_append]; exact Or.inl hr
+  rw [rule_iff_all s fx d r hr', rule_iff_all s fx d' r hr']
+  simp only [ProvedPermDefs, List.mem_append] at hr
   rcases hr with hr | hr
   · have := spec_perm_definitions s h r hr
     simp only [Proved, List.mem_cons, List.not_mem_nil, or_false] at hr
@@ -71,13 +89,17 @@ theorem perm_definitions_all_partial (s : SchemaD) (fx : Fixes) {d d' : Doc} (h 
       constructor
       · rintro ⟨_, H⟩; exact ⟨hP _, fun n ⟨x, hx, hm⟩ => H n ⟨x, h.mem_iff.mpr hx, hm⟩⟩
       · rintro ⟨_, H⟩; exact ⟨hP _, fun n ⟨x, hx, hm⟩ => H n ⟨x, h.mem_iff.mp hx, hm⟩⟩
-    rcases hr with rfl | rfl | rfl | rfl | rfl
+    have hg : ∀ {X : Type} (down : Node → X → X) (x0 : X) (p : Node × X), p ∈ gnDoc down x0 d ↔ p ∈ gnDoc down x0 d' :=
+      fun down x0 p => (h.flatMap_right _).mem_iff
+    rcases hr with rfl | rfl | rfl | rfl | rfl | rfl | rfl
     · simp only [SpecAll, Spec.fieldsOnCorrectType, hm]
     · simp only [SpecAll, Spec.scalarLeafs, hm]
     · simp only [SpecAll, Spec.knownArgumentNames, hm]
     · simp only [SpecAll, Spec.providedRequiredArguments, hm]
     · simp only [SpecAll, Spec.fragmentsOnCompositeTypes]
       exact and_congr (hnodes _ (fun _ => by simp)) (hnodes _ (fun _ => by simp))
+    · exact hnodes _ (fun _ => by simp)
+    · simp only [SpecAll, Spec.knownDirectives, hg]
 
 /-- every rule of the chain is either proved or listed in `Spec.Unproved` -/
 theorem proved_all_or_listed : ∀ r ∈ Rule.all, r ∈ ProvedAll ∨ r.name ∈ Spec.Unproved := by decide
